@@ -243,8 +243,12 @@ static void clear_elem(m_map_t *m, map_elem *removed_entry) {
             break;
         }
         const size_t entry_index = hashmap_calc_index(m, entry->key);
-        /* Shift in entries with an index <= to the removed slot */
-        if (MAP_INDEX_LE(m, removed_index, entry_index)) {
+        /*
+         * Shift in the entry unless its home slot lies (cyclically) between the hole and its current slot:
+         * compare how far it sits from its home slot with how far it sits from the hole.
+         * (Comparing the two indexes through a half-table window is ambiguous at a distance of table_size / 2.)
+         */
+        if (MAP_SIZE_MOD(m, index - entry_index) >= MAP_SIZE_MOD(m, index - removed_index)) {
             memcpy(removed_entry, entry, sizeof(map_elem));
             removed_index = index;
             removed_entry = entry;
